@@ -81,13 +81,12 @@ inductive Rd (α : Type)
   | eof
   | err (e : RdErr)
 
-/-- bufio.Reader.ReadRune -/
+/-- bufio.Reader.ReadRune (`b.lastRuneSize = -1` first; set again on success) -/
 def bufReadRune (src : List Nat) (rd : Reader) (b : Buf) : Rd (Nat × Nat) × Buf :=
   let b := fillForRune src rd 4 b
-  let b := { b with lastRuneSize := none }
   if b.cur = b.fetched then
-    if b.pendErr then (.eof, { b with pendErr := false })     -- b.readErr()
-    else (.err .noProgress, b)
+    if b.pendErr then (.eof, { b with pendErr := false, lastRuneSize := none })     -- b.readErr()
+    else (.err .noProgress, { b with lastRuneSize := none })
   else
     let d := decodeRune (avail src b)
     (.ok d, { b with cur := b.cur + d.2, lastRuneSize := some d.2, lastByte := true })
@@ -98,17 +97,16 @@ def bufUnreadRune (b : Buf) : Option Buf :=
   | some n => if b.cur < n then none else some { b with cur := b.cur - n, lastRuneSize := none, lastByte := false }
   | none => none
 
-/-- bufio.Reader.ReadByte -/
+/-- bufio.Reader.ReadByte (`b.lastRuneSize = -1` first) -/
 def bufReadByte (src : List Nat) (rd : Reader) (b : Buf) : Rd Nat × Buf :=
-  let b := { b with lastRuneSize := none }
   let b := if b.cur = b.fetched ∧ b.pendErr = false then fill src rd b else b
   if b.cur = b.fetched then
-    if b.pendErr then (.eof, { b with pendErr := false })
-    else (.err .noProgress, b)
+    if b.pendErr then (.eof, { b with pendErr := false, lastRuneSize := none })
+    else (.err .noProgress, { b with lastRuneSize := none })
   else
     match src[b.cur]? with
-    | some c => (.ok c, { b with cur := b.cur + 1, lastByte := true })
-    | none => (.err .noProgress, b)
+    | some x => (.ok x, { b with cur := b.cur + 1, lastRuneSize := none, lastByte := true })
+    | none => (.err .noProgress, { b with lastRuneSize := none })
 
 /-- bufio.Reader.UnreadByte -/
 def bufUnreadByte (b : Buf) : Option Buf :=
@@ -171,25 +169,28 @@ def readEOF (s : Stream) : Stream :=
 def unreadEOF (s : Stream) : Stream :=
   { s with eofUnread := true, endOfStream := .at }
 
+/-- Stream.ReadRune after initRead succeeded -/
+def readRuneBody (c : Cfg) (s : Stream) : Rd (Nat × Nat) × Stream :=
+  if c.typ ≠ .text then (.err .wrongType, s)
+  else if s.eofUnread then (.eof, readEOF { s with lastRuneSize := 0 })
+  else
+    match bufReadRune c.src c.rd s.buf with
+    | (.ok d, b) =>
+      let s := { s with buf := b, position := s.position + d.2, lastRuneSize := d.2 }
+      (.ok d, checkEOS c (setLastRead s .ok) false)
+    | (.eof, b) =>
+      let s := { s with buf := b, lastRuneSize := 0 }
+      (.eof, checkEOS c (setLastRead s .eof) true)
+    | (.err e, b) =>
+      let s := { s with buf := b, lastRuneSize := 0 }
+      (.err e, checkEOS c (setLastRead s .other) false)
+
 /-- Stream.ReadRune -/
 def readRune (c : Cfg) (s : Stream) : Rd (Nat × Nat) × Stream :=
   let s := { s with lastRead := .none }
   match initRead c s with
   | (some e, s) => (.err e, s)
-  | (none, s) =>
-    if c.typ ≠ .text then (.err .wrongType, s)
-    else if s.eofUnread then (.eof, readEOF { s with lastRuneSize := 0 })
-    else
-      match bufReadRune c.src c.rd s.buf with
-      | (.ok d, b) =>
-        let s := { s with buf := b, position := s.position + d.2, lastRuneSize := d.2 }
-        (.ok d, checkEOS c (setLastRead s .ok) false)
-      | (.eof, b) =>
-        let s := { s with buf := b, lastRuneSize := 0 }
-        (.eof, checkEOS c (setLastRead s .eof) true)
-      | (.err e, b) =>
-        let s := { s with buf := b, lastRuneSize := 0 }
-        (.err e, checkEOS c (setLastRead s .other) false)
+  | (none, s) => readRuneBody c s
 
 /-- Stream.UnreadRune (its error is ignored by every caller) -/
 def unreadRune (c : Cfg) (s : Stream) : Stream :=
@@ -204,25 +205,28 @@ def unreadRune (c : Cfg) (s : Stream) : Stream :=
     | .eof => unreadEOF { s with lastRead := .none }
     | .none => s
 
+/-- Stream.ReadByte after initRead succeeded -/
+def readByteBody (c : Cfg) (s : Stream) : Rd Nat × Stream :=
+  if c.typ ≠ .binary then (.err .wrongType, s)
+  else if s.eofUnread then (.eof, readEOF s)
+  else
+    match bufReadByte c.src c.rd s.buf with
+    | (.ok x, b) =>
+      let s := { s with buf := b, position := s.position + 1 }
+      (.ok x, checkEOS c (setLastRead s .ok) false)
+    | (.eof, b) =>
+      let s := { s with buf := b }
+      (.eof, checkEOS c (setLastRead s .eof) true)
+    | (.err e, b) =>
+      let s := { s with buf := b }
+      (.err e, checkEOS c (setLastRead s .other) false)
+
 /-- Stream.ReadByte -/
 def readByte (c : Cfg) (s : Stream) : Rd Nat × Stream :=
   let s := { s with lastRead := .none }
   match initRead c s with
   | (some e, s) => (.err e, s)
-  | (none, s) =>
-    if c.typ ≠ .binary then (.err .wrongType, s)
-    else if s.eofUnread then (.eof, readEOF s)
-    else
-      match bufReadByte c.src c.rd s.buf with
-      | (.ok x, b) =>
-        let s := { s with buf := b, position := s.position + 1 }
-        (.ok x, checkEOS c (setLastRead s .ok) false)
-      | (.eof, b) =>
-        let s := { s with buf := b }
-        (.eof, checkEOS c (setLastRead s .eof) true)
-      | (.err e, b) =>
-        let s := { s with buf := b }
-        (.err e, checkEOS c (setLastRead s .other) false)
+  | (none, s) => readByteBody c s
 
 /-- Stream.UnreadByte -/
 def unreadByte (c : Cfg) (s : Stream) : Stream :=
